@@ -7,6 +7,7 @@ package interp
 
 import (
 	"fmt"
+	"os"
 	"go/token"
 	"go/types"
 	"strings"
@@ -131,6 +132,11 @@ func init() {
 					return nil
 				}
 				panic(unsupported{"Assume outside a path"})
+			}
+			if debugConc {
+				if b, ok := a[0].(bool); ok && !b && fr.caller != nil {
+					fmt.Fprintf(os.Stderr, "assume(false) at %s\n", fr.i.prog.Fset.Position(fr.i.curInstr.Pos()))
+				}
 			}
 			fr.i.path.assume(toTerm(a[0]))
 			return nil
